@@ -491,5 +491,7 @@ pub fn random_program(rng: &mut Rng, inject: u8) -> Program {
         }
         files.push(SrcFile { name: format!("r{f}.slice"), text });
     }
-    Program { template: "random", files, class: if inject == 0 { Class::Clean } else { Class::Error }, codes: vec![], lints: vec![], order_sensitive_known: false }
+    // the class follows what was actually injected (an injection that found nothing to attach to is a clean program;
+    // clean random programs may carry Deprecated / BrokenDocLink warnings)
+    Program { template: "random", files, class: if extra.is_empty() { Class::Clean } else { Class::Error }, codes: vec![], lints: vec![], order_sensitive_known: false }
 }
